@@ -1,7 +1,7 @@
 (* C12 -- path decoding and normalisation match the documented semantics for every path.
    This file contains only statements closed by `exact`, their assumptions, and examples. *)
 Require Import Htp.Model.Base Htp.Model.MPath Htp.Spec.SPath.
-Require Import Htp.Proof.PPathDot Htp.Proof.PPathLen Htp.Proof.PPathRfc Htp.Proof.PPathFlags.
+Require Import Htp.Proof.PPathDot Htp.Proof.PPathLen Htp.Proof.PPathRfc Htp.Proof.PPathFlags Htp.Proof.PPathUtf8 Htp.Proof.PPathPipe.
 Local Open Scope N_scope.
 
 (* ---- dot-segment removal (model of htp_normalize_uri_path_inplace) ---- *)
@@ -59,6 +59,41 @@ Theorem C12_decoder_flags_exact : forall c s,
 Proof. exact pth_decoder_flags_exact. Qed.
 Print Assumptions C12_decoder_flags_exact.
 
+(* ---- the UTF-8 stage against the declarative tokeniser (the regenerated DFA tables implement it) ---- *)
+(* premises: the input consists of bytes; UTF8_INVALID is not already set in the incoming flags (the C tests tx->flags) *)
+Theorem C12_utf8_validate_spec : forall s st,
+  all_byte s = true -> pth_has c_HTP_PATH_UTF8_INVALID st = false ->
+  fst (utf8_validate_path s st) = N.lor (fst st) (utf8_spec_validate s).
+Proof. exact utf8_validate_spec. Qed.
+Print Assumptions C12_utf8_validate_spec.
+
+Theorem C12_utf8_decode_spec : forall c s st,
+  all_byte s = true -> pth_has c_HTP_PATH_UTF8_INVALID st = false ->
+  fst (utf8_decode_path c s st) = fst (utf8_spec_decode c s) /\
+  fst (snd (utf8_decode_path c s st)) = N.lor (fst st) (snd (utf8_spec_decode c s)).
+Proof. exact utf8_decode_spec. Qed.
+Print Assumptions C12_utf8_decode_spec.
+
+(* UTF8_INVALID / OVERLONG / HALF_FULL_RANGE / VALID are raised exactly when a broken sequence / an overlong sequence /
+   a code point in the half-full-width window occurs / a multi-byte sequence occurs and nothing is broken *)
+Theorem C12_utf8_flags_exact : forall dec toks,
+  let f := (utf8_spec_flags dec toks, 0%Z) in
+  pth_has c_HTP_PATH_UTF8_INVALID f = existsb utf8_is_bad toks /\
+  pth_has c_HTP_PATH_UTF8_OVERLONG f = existsb utf8_is_overlong toks /\
+  pth_has c_HTP_PATH_HALF_FULL_RANGE f = existsb (utf8_is_halffull dec) toks /\
+  pth_has c_HTP_PATH_UTF8_VALID f = existsb utf8_is_seq toks && negb (existsb utf8_is_bad toks).
+Proof. exact utf8_spec_flags_exact. Qed.
+Print Assumptions C12_utf8_flags_exact.
+
+(* ---- the whole pipeline: decoder spec, then UTF-8 spec (decode or validate), then the RFC relation ---- *)
+Theorem C12_pipeline_spec : forall c s, pth_wf c s = true ->
+  let p1 := pth_decode_spec c s in
+  let '(p2, f2) := pth_spec_stage2 c p1 in
+  rds p2 [] (pth_pipeline c s) /\
+  fst (snd (pth_pipeline_st c s)) = N.lor (pth_decoder_flags_spec c s) f2.
+Proof. exact pth_pipeline_spec. Qed.
+Print Assumptions C12_pipeline_spec.
+
 (* ---- examples (non-vacuity; the pinned deviation; the fixed raw-NUL finding) ---- *)
 Definition ex_generic : dcfg := mk_dcfg false false false false false false 0 false false false 63 0 0 0 0 0 0 0.
 Definition ex_ids : dcfg := mk_dcfg true true true true false true 0 true false false 63 0 0 0 0 0 0 0.
@@ -87,4 +122,12 @@ Proof. vm_compute. reflexivity. Qed.
 
 Example C12_lex_example :
   pth_lex ex_ids [37; 50; 102; 37; 117; 48; 48; 37; 122] = [PT_pct 47; PT_bad; PT_lit 117; PT_lit 48; PT_lit 48; PT_bad; PT_lit 122].
+Proof. vm_compute. reflexivity. Qed.
+
+(* premises are satisfiable; "/%c0%af%ef%bc%8f" under IDS: overlong and full-width slashes, both reported *)
+Example C12_wf_example : pth_wf ex_ids [47; 37; 99; 48; 37; 97; 102; 37; 101; 102; 37; 98; 99; 37; 56; 102] = true.
+Proof. vm_compute. reflexivity. Qed.
+Example C12_utf8_example :
+  utf8_lex false [47; 192; 175; 239; 188; 143; 237; 160; 128; 226; 130]
+  = [UT_ascii 47; UT_seq 2 47; UT_seq 3 65295; UT_bad; UT_bad; UT_bad; UT_trunc].
 Proof. vm_compute. reflexivity. Qed.
